@@ -1,0 +1,188 @@
+//go:build verif
+
+// Contracts for the verification machinery in /verif (comment-only; no code).
+// Channel: the three session slots, key pinning and acceptance, promotion, expiry.
+// Session methods are used through their contracts; their frames (a Session method writes only
+// its own Session object, the objects only that Session points to, and the out buffer) are assumed.
+
+package p2pke
+
+//@ spec func sready(isInit bool, hs int) bool = (isInit && hs >= 3) || (!isInit && hs >= 2)
+
+//@ type Channel
+//@   invariant sessions[0].Session != nil ==> inv(sessions[0].Session) && sready(sessions[0].Session.isInit, sessions[0].Session.hsIndex)
+//@   invariant sessions[1].Session != nil ==> inv(sessions[1].Session) && sready(sessions[1].Session.isInit, sessions[1].Session.hsIndex)
+//@   invariant sessions[2].Session != nil ==> inv(sessions[2].Session) && !sready(sessions[2].Session.isInit, sessions[2].Session.hsIndex)
+//@   invariant sessions[0].Session != nil ==> sessions[0].Session != sessions[1].Session && sessions[0].Session != sessions[2].Session
+//@   invariant sessions[1].Session != nil ==> sessions[1].Session != sessions[2].Session
+//@   invariant rekeyTimer != nil && handshakeTimer != nil && ready != nil
+
+//@ func (*Timer).Reset
+//@   modifies all(t)
+//@   assumeframe
+//@   ensures true
+//@
+//@ func (*Channel).setCurrent
+//@   modifies c.sessions[0], c.sessions[1]
+//@   ensures c.sessions[0] == old(c.sessions[1]) && c.sessions[1] == x
+//@
+//@ func (*Channel).setNext
+//@   modifies c.sessions[2]
+//@   ensures c.sessions[2] == x
+//@
+//@ func (*Channel).checkKey
+//@   requires pubKey != nil
+//@   ghostvar accepted = false
+//@   ensures ret == nil ==> (len(c.remoteKey.Algorithm.s) == 0 && c.remoteKey.Data == nil ==> ghost(accepted))
+//@   ensures ret == nil ==> (!(len(c.remoteKey.Algorithm.s) == 0 && c.remoteKey.Data == nil) ==> c.remoteKey.Algorithm == pubKey.Algorithm && seq(c.remoteKey.Data) == seq(pubKey.Data))
+//@   before call AcceptKey:
+//@     assert arg0 == pubKey
+//@   after call AcceptKey:
+//@     set accepted = res0
+//@   fnspec AcceptKey:
+//@     pure
+//@
+//@ func NewSession
+//@   assumeframe
+//@   allowpanic
+//@   ensures ret != nil && fresh(ret) && inv(ret) && ret.isInit == params.IsInit && ret.hsIndex == 0
+//@   ensures ret.expiresAt == params.Now + params.RejectAfter
+//@   fnspec fn:
+//@     pure
+//@   fnspec Write:
+//@     pure
+//@   fnspec Sign:
+//@     pure
+//@   fnspec Verifier:
+//@     pure
+//@   fnspec Verify:
+//@     pure
+//@   fnspec Signer:
+//@     pure
+//@
+//@ func writeInitHello
+//@   modifies all(hs)
+//@   assumeframe
+//@   allowpanic
+//@   requires hs != nil && privateKey != nil
+//@   ensures ret != nil
+//@   fnspec fn:
+//@     pure
+//@   fnspec Write:
+//@     pure
+//@   fnspec Sign:
+//@     pure
+//@   fnspec Verifier:
+//@     pure
+//@   fnspec Verify:
+//@     pure
+//@   fnspec Signer:
+//@     pure
+//@
+//@ func makeTAI64NAuthClaim
+//@   requires privateKey != nil
+//@   allowpanic
+//@
+//@ func makeChannelAuthClaim
+//@   requires privateKey != nil
+//@   allowpanic
+//@
+//@ func marshal
+//@   inline
+//@   allowpanic
+//@
+//@ func (*Channel).newInit
+//@   requires c != nil
+//@   assumeframe
+//@   ensures ret1 != nil && fresh(ret1) && inv(ret1) && ret1.isInit && ret1.hsIndex == 0
+//@   fnspec fn:
+//@     pure
+//@
+//@ func (*Channel).newResp
+//@   requires inv(c)
+//@   assumeframe
+//@   ghostvar keyok = false
+//@   ensures ret1 == nil ==> ret0 != nil && fresh(ret0) && inv(ret0) && !ret0.isInit && ret0.hsIndex <= 1
+//@   ensures ret1 == nil ==> ghost(keyok)
+//@   after call (*Channel).checkKey:
+//@     set keyok = res0 == nil
+//@   fnspec fn:
+//@     pure
+//@   fnspec Write:
+//@     pure
+//@   fnspec Sign:
+//@     pure
+//@   fnspec Verifier:
+//@     pure
+//@   fnspec Verify:
+//@     pure
+//@   fnspec Signer:
+//@     pure
+//@
+//@ func (*Channel).proposeNewSession
+//@   requires inv(c) && newS != nil && inv(newS) && !sready(newS.isInit, newS.hsIndex)
+//@   requires newS != c.sessions[0].Session && newS != c.sessions[1].Session
+//@   modifies c.sessions[2], all(c.rekeyTimer)
+//@   ensures inv(c)
+//@   ensures ret == c.sessions[2].Session && ret != nil
+//@   ensures ret == newS || (ret == old(c.sessions[2].Session) && c.sessions[2] == old(c.sessions[2]))
+//@   ensures old(c.sessions[2].Session) == nil ==> ret == newS && c.sessions[2].ID == sid
+//@
+//@ func (*Channel).onReadySession
+//@   requires inv(c) || true
+//@   requires c.sessions[2].Session != nil && inv(c.sessions[2].Session) && sready(c.sessions[2].Session.isInit, c.sessions[2].Session.hsIndex)
+//@   requires c.sessions[0].Session != nil ==> inv(c.sessions[0].Session) && sready(c.sessions[0].Session.isInit, c.sessions[0].Session.hsIndex)
+//@   requires c.sessions[1].Session != nil ==> inv(c.sessions[1].Session) && sready(c.sessions[1].Session.isInit, c.sessions[1].Session.hsIndex)
+//@   requires c.sessions[2].Session != c.sessions[0].Session && c.sessions[2].Session != c.sessions[1].Session
+//@   requires c.sessions[0].Session != nil ==> c.sessions[0].Session != c.sessions[1].Session
+//@   requires c.rekeyTimer != nil && c.handshakeTimer != nil && c.ready != nil
+//@   ghostvar accepted = false
+//@   modifies c.sessions, c.remoteKey, c.lastReceived, c.remoteTimestamp, all(c.rekeyTimer)
+//@   ensures inv(c)
+//@   ensures c.sessions[2].Session == nil
+//@   ensures ret == nil ==> c.sessions[1] == old(c.sessions[2]) && c.sessions[0] == old(c.sessions[1]) && c.lastReceived == now
+//@   ensures [pinned] ret == nil && !(len(old(c.remoteKey.Algorithm.s)) == 0 && old(c.remoteKey.Data) == nil) ==> c.remoteKey.Algorithm == old(c.remoteKey.Algorithm) && seq(c.remoteKey.Data) == old(seq(c.remoteKey.Data))
+//@   ensures [accept] ret == nil && len(old(c.remoteKey.Algorithm.s)) == 0 && old(c.remoteKey.Data) == nil ==> ghost(accepted)
+//@   ensures [undisturbed] ret != nil ==> c.sessions[0] == old(c.sessions[0]) && c.sessions[1] == old(c.sessions[1]) && c.remoteKey == old(c.remoteKey) && c.lastReceived == old(c.lastReceived)
+//@   after call (*Channel).checkKey:
+//@     set accepted = res0 == nil
+//@   after call AcceptKey:
+//@     set accepted = res0
+//@   before call (*Channel).checkKey:
+//@     assert arg1 != nil && arg1.Algorithm == c.sessions[2].Session.remoteKey.Key.Algorithm && seq(arg1.Data) == seq(c.sessions[2].Session.remoteKey.Key.Data)
+//@   fnspec AcceptKey:
+//@     pure
+//@
+//@ func (*Channel).expireSessions
+//@   requires inv(c)
+//@   modifies c.sessions, c.ready
+//@   ensures inv(c)
+//@   ensures [keepalive] old(c.sessions[1].Session) != nil && now <= old(c.sessions[1].Session.expiresAt) && now - c.lastReceived <= c.params.KeepAliveTimeout ==> c.sessions[1] == old(c.sessions[1])
+//@   ensures c.sessions[1].Session != nil ==> c.sessions[1] == old(c.sessions[1]) && c.ready == old(c.ready)
+//@   ensures c.sessions[2].Session != nil ==> c.sessions[2] == old(c.sessions[2])
+//@
+//@ func (*Channel).Deliver$1
+//@   noframe
+//@   requires c != nil && inv(c)
+//@   ghostvar promoted = false
+//@   ghostvar gotApp = false
+//@   ensures inv(c)
+//@   ensures [pinned] !ghost(promoted) ==> c.remoteKey == old(c.remoteKey)
+//@   ensures [promotion] !ghost(promoted) ==> c.sessions[0] == old(c.sessions[0]) && c.sessions[1] == old(c.sessions[1])
+//@   ensures [keepalive] ghost(gotApp) && ret1 == nil ==> c.lastReceived == now
+//@   ensures [appdata] !ghost(gotApp) ==> appData == old(appData)
+//@   after call (*Channel).onReadySession:
+//@     set promoted = res0 == nil
+//@   after call (*Session).Deliver:
+//@     set gotApp = res0
+//@   loop 0:
+//@     invariant 0 <= i && i <= 3 && c == old(c) && inv(c)
+//@     invariant !ghost(gotApp) && appData == old(appData)
+//@     invariant !ghost(promoted) ==> c.sessions[0] == old(c.sessions[0]) && c.sessions[1] == old(c.sessions[1]) && c.sessions[2] == old(c.sessions[2])
+//@     invariant ghost(promoted) ==> i == 3
+//@     invariant !ghost(promoted) ==> c.remoteKey == old(c.remoteKey)
+//@   loop 1:
+//@     invariant 0 <= _i && _i <= 3 && c == old(c) && inv(c)
+//@     invariant !ghost(gotApp) && appData == old(appData)
+//@     invariant ghost(promoted) || (c.sessions[0] == old(c.sessions[0]) && c.sessions[1] == old(c.sessions[1]))
+//@     invariant !ghost(promoted) ==> c.remoteKey == old(c.remoteKey)
